@@ -89,6 +89,80 @@ def _sign_eval(guard, x):
 VALUES = (-2, -1, 0, 1, 2)
 
 
+
+_UNK = object()
+
+
+def _num_eval(e, X, v, module):
+    """Value of an expression built from the local X (= v), numbers, comparisons, boolean operators, abs, unary minus,
+    conditional expressions and a first-match `next((V for P, V in TABLE if P(arg)), default)` over a module-level literal
+    table of (lambda, value) rows.  _UNK when something else occurs."""
+    def go(x):
+        if isinstance(x, ast.Constant):
+            return x.value
+        if cm.is_name(x, X):
+            return v
+        if isinstance(x, ast.UnaryOp):
+            a = go(x.operand)
+            if a is _UNK:
+                return _UNK
+            return (not a) if isinstance(x.op, ast.Not) else (-a if isinstance(x.op, ast.USub) and isinstance(a, (int, float)) else a if isinstance(x.op, ast.UAdd) else _UNK)
+        if isinstance(x, ast.BoolOp):
+            vals = [go(y) for y in x.values]
+            if any(y is _UNK for y in vals):
+                return _UNK
+            return all(vals) if isinstance(x.op, ast.And) else any(vals)
+        if isinstance(x, ast.IfExp):
+            t = go(x.test)
+            return _UNK if t is _UNK else go(x.body if t else x.orelse)
+        if isinstance(x, ast.Compare) and len(x.ops) == 1:
+            a, b = go(x.left), go(x.comparators[0])
+            if a is _UNK or b is _UNK:
+                return _UNK
+            op = type(x.ops[0])
+            if op in (ast.Is, ast.IsNot):
+                return (a is b) if op is ast.Is else (a is not b)
+            import operator as _op
+            f = {ast.Eq: _op.eq, ast.NotEq: _op.ne, ast.Lt: _op.lt, ast.LtE: _op.le, ast.Gt: _op.gt, ast.GtE: _op.ge}.get(op)
+            try:
+                return _UNK if f is None else f(a, b)
+            except TypeError:
+                return _UNK
+        if cm.is_call_to(x, 'abs', 1):
+            a = go(x.args[0])
+            return abs(a) if isinstance(a, (int, float)) else _UNK
+        if cm.is_call_to(x, 'next') and x.args and isinstance(x.args[0], (ast.GeneratorExp, ast.ListComp)) and len(x.args[0].generators) == 1:
+            gen = x.args[0]
+            g0 = gen.generators[0]
+            table = g0.iter
+            if isinstance(table, ast.Name):
+                vals = module.assigns.get(table.id, [])
+                table = vals[0] if len(vals) == 1 else None
+            if not (isinstance(table, (ast.Tuple, ast.List)) and isinstance(g0.target, ast.Tuple) and len(g0.target.elts) == 2
+                    and all(isinstance(t, ast.Name) for t in g0.target.elts) and len(g0.ifs) == 1):
+                return _UNK
+            pn, vn = [t.id for t in g0.target.elts]
+            cond = g0.ifs[0]
+            if not (isinstance(cond, ast.Call) and cm.is_name(cond.func, pn) and len(cond.args) == 1 and cm.is_name(gen.elt, vn)):
+                return _UNK
+            arg = go(cond.args[0])
+            if arg is _UNK:
+                return _UNK
+            for row in table.elts:
+                if not (isinstance(row, (ast.Tuple, ast.List)) and len(row.elts) == 2 and isinstance(row.elts[0], ast.Lambda)
+                        and len(row.elts[0].args.args) == 1):
+                    return _UNK
+                lam = row.elts[0]
+                hit = _num_eval(lam.body, lam.args.args[0].arg, arg, module)
+                if hit is _UNK:
+                    return _UNK
+                if hit:
+                    return go(row.elts[1])
+            return go(x.args[1]) if len(x.args) > 1 else _UNK
+        return _UNK
+    return go(e)
+
+
 def _flatten_add(e):
     if isinstance(e, ast.BinOp) and isinstance(e.op, ast.Add):
         return _flatten_add(e.left) + _flatten_add(e.right)
@@ -140,6 +214,14 @@ def d1_formula(ctx, idx):
                 if ev is None:
                     continue
                 if ev == 'unknown':
+                    ev = {}
+                    for v_ in VALUES:
+                        t_ = _num_eval(g, X, v_, fi.module)
+                        if t_ is _UNK:
+                            ev = 'unknown'
+                            break
+                        ev[v_] = bool(t_)
+                if ev == 'unknown':
                     unknown = True
                     break
                 feas &= {s for s in ev if ev[s]}
@@ -154,13 +236,13 @@ def d1_formula(ctx, idx):
                 r.undecided('consolidate_grades: list update', 'grades updated by unrecognised `%s`' % short(bad_eff[0]), where)
                 continue
             for sg in sorted({(v > 0) - (v < 0) for v in feas}, reverse=True):
-                _formula_leaf(r, fi, p.leaf.expr, G, N, X, {sg}, where)
+                _formula_leaf(r, fi, p.leaf.expr, G, N, X, {sg}, where, sorted(v for v in feas if (v > 0) - (v < 0) == sg))
             covered |= feas
         if covered != set(VALUES):
             r.undecided('consolidate_grades: case split', 'cases of n_extra not covered: %s' % sorted(set(VALUES) - covered), fi.loc)
 
 
-def _formula_leaf(r, fi, expr, G, N, X, signs, where):
+def _formula_leaf(r, fi, expr, G, N, X, signs, where, values=()):
     tag = {1: 'surplus', 0: 'exact', -1: 'missing'}
     label = 'consolidate_grades [%s]' % '/'.join(tag[s] for s in sorted(signs, reverse=True))
     e = expr
@@ -212,6 +294,31 @@ def _formula_leaf(r, fi, expr, G, N, X, signs, where):
         ok = isinstance(t, ast.BinOp) and isinstance(t.op, ast.Mult)
         lst, cnt = (t.left, t.right) if ok and isinstance(t.left, ast.List) else (t.right, t.left) if ok else (None, None)
         if not (ok and isinstance(lst, ast.List) and len(lst.elts) == 1 and isinstance(lst.elts[0], ast.Constant)):
+            if ok and isinstance(lst, ast.List) and len(lst.elts) == 1 and values:
+                # [c(n_extra)] * k(n_extra): the contribution to the total, evaluated for the values of n_extra on this path
+                s_ = sorted(signs)[0]
+                tag_ = tag[s_]
+                construct = 'consolidate_grades [%s]: item credit' % tag_
+                totals = {}
+                for v_ in values:
+                    c_, k_ = _num_eval(lst.elts[0], X, v_, fi.module), _num_eval(cnt, X, v_, fi.module)
+                    if c_ is _UNK or k_ is _UNK or not isinstance(k_, int) or not isinstance(c_, (int, float)) or isinstance(c_, bool) or k_ < 0:
+                        totals = None
+                        break
+                    totals[v_] = c_ * k_
+                if totals is None:
+                    r.undecided(label + ': padding', 'padding term `%s` not evaluable' % short(t), where)
+                    return
+                want_ = {v_: (-v_ if v_ > 0 else 0) for v_ in values}
+                bad_ = [v_ for v_ in values if totals[v_] != want_[v_]]
+                if not bad_:
+                    r.ok(construct, {1: '-1 per surplus item', -1: 'missing items add 0', 0: 'no padding when the length is right'}[s_], where)
+                else:
+                    v_ = bad_[0]
+                    r.violation(construct, 'with %d %s item(s) the padding adds %g to the total instead of %g (%s)' % (
+                        abs(v_), 'surplus' if v_ > 0 else 'missing', totals[v_], want_[v_],
+                        'each surplus item must count -1' if v_ > 0 else 'missing items count 0'), where, found=short(t))
+                return
             r.undecided(label + ': padding', 'padding term `%s`' % short(t), where)
             return
         tied = cm.is_name(cnt, X) or (cm.is_call_to(cnt, 'abs', 1) and cm.is_name(cnt.args[0], X)) or \
@@ -815,6 +922,23 @@ def _process_states(r, idx, fi, selfn, R):
             r.undecided(construct, 'no case exercises this obligation', fi.loc)
 
 
+def _plain_length_test(x, names):
+    """x is a comparison that mentions nothing but len(<name>) of the given names and integer constants"""
+    if not isinstance(x, ast.Compare):
+        return False
+    seen = False
+    for n in ast.walk(x):
+        if isinstance(n, ast.Call):
+            if not (cm.is_name(n.func, 'len') and len(n.args) == 1 and isinstance(n.args[0], ast.Name) and n.args[0].id in names):
+                return False
+            seen = True
+        elif isinstance(n, ast.Name) and n.id != 'len' and n.id not in names:
+            return False
+        elif isinstance(n, (ast.Attribute, ast.Subscript)):
+            return False
+    return seen
+
+
 # ------------------------------------------------------------------------------- D4
 def d4_check_response(ctx, idx):
     r = ctx.rule('D4.CHECK', 'split by the delimiter; length check, then blank-item check, then grading of the padded lists', floor=16)
@@ -853,6 +977,7 @@ def d4_check_response(ctx, idx):
         # the two raises
         raises = lib.raises_of(fi.node)
         length_r, blank_r = [], []
+        unclassified = []
         for rs in raises:
             g = [y for x in cm.guards_of(rs, stop=fi.node) for y in nf.conjuncts(x if isinstance(x, ast.Name) or (
                 isinstance(x, ast.UnaryOp) and isinstance(x.operand, ast.Name)) else cm.inline(fi, x, keep=(ANS, STU)))]
@@ -861,22 +986,31 @@ def d4_check_response(ctx, idx):
                 length_r.append((rs, g))
             elif 'missing_error' in keys:
                 blank_r.append((rs, g))
+            elif g and all(_plain_length_test(x, (ANS, STU)) for x in g) and {ANS, STU} <= {n.id for x in g for n in ast.walk(x) if isinstance(n, ast.Name)}:
+                # fully read: a comparison of the two lengths and nothing else
+                r.violation('check_response: length error', "the refusal of a wrong number of items no longer depends on config['length_error'] "
+                            "(raised under %s): a list of the wrong length must be graded (with penalties) unless the option is set"
+                            % [short(x) for x in g], lib.loc(fi, rs))
+                length_r.append((rs, None))
             else:
+                unclassified.append(rs)
                 r.undecided('check_response: raise', 'raise under unrecognised guards %s' % [short(x) for x in g], lib.loc(fi, rs))
         grading = lib.calls_named(fi.node, ('get_padded_lists', 'find_optimal_order', 'padded_check'))
         if not grading:
             raise AnalysisError('check_response: grading calls not found')
         for what, lst, flag in (('length', length_r, 'length_error'), ('blank-item', blank_r, 'missing_error')):
             construct = 'check_response: %s error' % what
-            if not lst and cm.calls_unreviewed(idx, fi.node):
-                r.undecided(construct, "no raise guarded by config['%s'] found; un-inlined helpers %s are called" % (
-                    flag, cm.calls_unreviewed(idx, fi.node)), fi.loc)
+            if not lst and (unclassified or cm.calls_unreviewed(idx, fi.node)):
+                r.undecided(construct, "no raise guarded by config['%s'] recognised (%d raise(s) under conditions that could not be read; "
+                            "un-inlined helpers: %s)" % (flag, len(unclassified), cm.calls_unreviewed(idx, fi.node)), fi.loc)
                 continue
             if not lst:
                 r.violation(construct, "no raise is guarded by config['%s'] any more: %s is graded instead of refused" % (
                     flag, 'a wrong number of items' if what == 'length' else 'a blank item'), fi.loc)
                 continue
             for rs, g in lst:
+                if g is None:
+                    continue
                 cls = nf.exc_class_name(rs.exc)
                 if lib.exc_is_subclass(idx, fi.module, cls, 'StudentFacingError'):
                     r.ok(construct + ' class', cls, lib.loc(fi, rs))
@@ -1796,7 +1930,22 @@ _T_USE_NEW = ("        if isinstance(self.config['subgrader'], SingleListGrader)
               "            tally = _GradeTally(grade_list)\n        result = tally.result(num_answers, self.config['partial_credit'])\n"
               "        all_awarded = tally.num_awarded == %s\n")
 
+# wave-6 refactoring form: the padding value comes from the first matching row of a module-level (test, value) table
+_PADRULES_USE = ("    if n_extra > 0:\n        grade_decimals += [-1] * n_extra\n    elif n_extra < 0:\n        grade_decimals += [0] * abs(n_extra)\n",
+                 "    filler = next((value for applies, value in _PADDING_RULES if applies(n_extra)), None)\n"
+                 "    if filler is not None:\n        grade_decimals += [filler] * abs(n_extra)\n")
+_PADRULES_AT = "def consolidate_single_return(input_list, n_expect=None, partial_credit=True):\n"
+
+
+def _padrules(surplus, missing, first='n_extra > 0', second='n_extra < 0'):
+    return [_PADRULES_USE, (_PADRULES_AT, "_PADDING_RULES = (\n    (lambda n_extra: %s, %s),\n    (lambda n_extra: %s, %s),\n)\n\n\n%s"
+                            % (first, surplus, second, missing, _PADRULES_AT))]
+
+
 MUTANTS = [
+    Mutant('padding-table-surplus-half-penalty', LG, _padrules('-0.5', '0'), None, 'D1'),
+    Mutant('padding-table-missing-earns-credit', LG, _padrules('-1', '1'), None, 'D1'),
+    Mutant('padding-table-rows-shadowed', LG, _padrules('0', '-1', first='n_extra != 0'), None, 'D1'),
     # D1
     Mutant('surplus-penalty-zero', LG, "        grade_decimals += [-1] * n_extra", "        grade_decimals += [0] * n_extra", 'D1'),
     Mutant('surplus-penalty-half', LG, "        grade_decimals += [-1] * n_extra", "        grade_decimals += [-0.5] * n_extra", 'D1'),
@@ -1896,6 +2045,8 @@ MUTANTS = [
 ]
 
 BENIGN = [
+    Benign('padding-from-first-matching-table-row', LG, _padrules('-1', '0'), None),
+    Benign('padding-table-rows-reordered', LG, _padrules('0', '-1', first='n_extra < 0', second='n_extra > 0'), None),
     Benign('clamp-argument-order', LG, "    return max(0, avg)", "    return max(avg, 0)"),
     Benign('missing-padding-dropped', LG, "    elif n_extra < 0:\n        grade_decimals += [0] * abs(n_extra)\n", ""),
     Benign('surplus-guard-ge-one', LG, "    if n_extra > 0:\n        grade_decimals += [-1] * n_extra", "    if n_extra >= 1:\n        grade_decimals += [-1] * n_extra"),
